@@ -19,6 +19,14 @@ OBJ_MARK = {id(o): '<OBJ%d>' % i for i, o in enumerate(OBJS)}
 OBJ_BY_MARK = {'<OBJ%d>' % i: o for i, o in enumerate(OBJS)}
 CALL_POOL = POOL + OBJS          # values for call arguments (defaults stay JSON-representable)
 PNAMES = ['x', 'y', 'z', 'w']
+# parameter names that are also names inside klepto's own machinery (`_keygen(func, ignored, ...)`, `validate(func, ...)`,
+# the rounding decorators' `args`/`kwds`, the keymaps' `key`): a user's function may call its parameters anything
+CLASH_NAMES = ['func', 'ignored', 'args', 'key']
+
+
+def pnames(prog, n=None):
+    base = prog.get('pnames') or PNAMES
+    return base[:prog['npos'] if n is None else n]
 KWONLY = ['k', 'm']
 
 
@@ -59,6 +67,7 @@ def gen_program(r, idx):
                 args_attr=r.random() < 0.3,      # a callable instance with an attribute `args` of its own (it is not a functools.partial)
                 named_inst=r.random() < 0.3,     # a callable instance that carries a __name__ (as after functools.update_wrapper)
                 falsy=r.random() < 0.3,     # the instance (methods, callable instances) is falsy: `bool(inst)` is False
+                pnames=(CLASH_NAMES if (r.random() < 0.12 and not varargs) else None),
                 p_npos=r.choice([0, 1, 1, 2]), p_kw=r.random() < 0.5, p_kwname=r.choice(PNAMES + KWONLY + ['q']),
                 p_vals=[r.choice(POOL) for _ in range(3)])
 
@@ -66,7 +75,7 @@ def gen_program(r, idx):
 def build_callable(prog):
     """exec the program; returns (callable handed to klepto, Func description built from inspect, self object or None)"""
     params = []
-    pos = PNAMES[:prog['npos']]
+    pos = pnames(prog)
     nreq = prog['npos'] - prog['ndef']
     ns = {}
     for i, n in enumerate(pos):
@@ -153,7 +162,7 @@ def describe(f, I):
 
 def gen_ignore(r, prog):
     """an ignore specification mixing names, indices, '*', '**', 'self'"""
-    cands = PNAMES[:prog['npos']] + list(range(prog['npos'] + 2)) + ['*', '**', 'self'] + KWONLY[:prog['nkw']] + ['q']
+    cands = pnames(prog) + list(range(prog['npos'] + 2)) + ['*', '**', 'self'] + KWONLY[:prog['nkw']] + ['q']
     n = r.choice([0, 0, 1, 1, 2, 3])
     return tuple(r.sample(cands, min(n, len(cands))))
 
@@ -165,7 +174,7 @@ def gen_call(r, prog, malformed=False):
     na = r.choice([nfree, nfree, max(0, nfree - 1), max(0, nfree - 2), nfree + 1, nfree + 2, 0, 1])
     pool = CALL_POOL + (UNHASHABLE if malformed else [])
     args = [r.choice(pool) for _ in range(na)]
-    names = PNAMES[:prog['npos']] + KWONLY[:prog['nkw']] + ['q', 'r']
+    names = pnames(prog) + KWONLY[:prog['nkw']] + ['q', 'r']
     kw = {}
     for n in r.sample(names, min(len(names), r.choice([0, 0, 1, 2, 3]))):
         kw[n] = r.choice(pool)
